@@ -10,6 +10,7 @@ mod exec_misc;
 mod exec_text;
 mod gen;
 mod gen_inst;
+mod gen_text;
 mod num;
 mod shape;
 
